@@ -8,6 +8,9 @@ conditions, `hessStep/hessOneSided/gradStep/gradOneSided`, `godambe, lrtAdjust, 
 *generated from the current `dadi/Godambe.py`* by tools/gen_Godambe.py on every run; `hessElem, getHessEntry, getGradEntry, jEntry,
 cuEntry, statsOf, runCache, implKey, chi2Mix` are the hand-written rest of the executable model (Model/Godambe.lean) that the driver
 runs.  The stencils are polymorphic: statements are over an arbitrary field `K` (ℚ for the driver), all points, all step sizes ≠ 0.
+`quadForm` (Lemmas/Godambe.lean) is the class of test functions "every quadratic in n parameters", not code.  §3b instantiates the
+generated matrix expressions at Mathlib's matrices; §3c is real analysis (the closed forms of linear Poisson models that the L3 oracle
+uses) — the O(eps²) agreement of the finite differences with them is numerical only.
 
 Two statements are *false of the pinned tree* and therefore do not check there (findings F-19a, F-19b): `C19_chi2_scalar_array`
 (`sum_chi2_ppf` leaves `scalar_input` unbound for array input) and `C19_cache_transparent` (the cache key contains only
